@@ -303,6 +303,7 @@ def interpret(h, P, R, labels):
             _, rr = nxt('raw')
             b = bytes.fromhex(rr['bytes'])
             _, r = nxt('tear_scan')
+            expand_same(r['scans'], ('deps', 'reload_deps'))
             for sc in r['scans']:
                 m = check_load('tear at %d of %d' % (sc['n'], len(b)), b[:sc['n']], True, sc)
                 if op['append'] and 'reload_deps' in sc:
@@ -328,6 +329,17 @@ def interpret(h, P, R, labels):
                 labels.add(k + '_inside_record')
     h['_scans'] = scans
     return dict(nontrivial=damaged_then_recorded, labels=labels)
+
+
+def expand_same(scans, fields):
+    """the probe sends a dump only when it differs from the previous offset's"""
+    prev = {}
+    for sc in scans:
+        for f in fields:
+            if sc.pop(f + '_same', False):
+                sc[f] = prev[f]
+            elif f in sc:
+                prev[f] = sc[f]
 
 
 class Falsified(Exception):
